@@ -250,12 +250,12 @@ theorem apportion_eq {app app' : App Sem} (h : AgreeApp app app') (votes n : V) 
 /-! ### ByConstituency -/
 
 theorem district_eq {sP : Sig} {P P' : Sem} (hP : Agree sP P P') (hs : sP.seats = true)
-    (hpm : sP.prev = sP.max) (presel : Option V) (dv nd pv mx : V) :
-    districtImpl sP.prev P presel dv nd pv mx = districtLaw P' presel dv nd pv mx := by
+    (presel : Option V) (dv nd pv mx : V) :
+    districtImpl sP.prev sP.max P presel dv nd pv mx = districtLaw P' presel dv nd pv mx := by
   cases sP with | mk seats prev max ext =>
-  simp at hs hpm; subst hs; subst hpm
+  simp at hs; subst hs
   simp only [districtImpl, districtLaw, hP.byHand]
-  cases prev <;> simp [Args.restrict] <;> rfl
+  cases prev <;> cases max <;> simp [Args.restrict] <;> rfl
 
 /-- the optional preselector together with the flag `accepts_seats(preselector)` -/
 inductive AgreePre : Option Sem → Option Sem → Bool → Prop
@@ -263,11 +263,12 @@ inductive AgreePre : Option Sem → Option Sem → Bool → Prop
   | some {sQ : Sig} {Q Q' : Sem} : Agree sQ Q Q' → AgreePre (some Q) (some Q') sQ.seats
 
 theorem agree_byConstituency {sP : Sig} {P P' : Sem} {app app' : App Sem} {pre pre' : Option Sem}
-    {preSeats : Bool} (hP : Agree sP P P') (hs : sP.seats = true) (hpm : sP.prev = sP.max)
+    {preSeats : Bool} (hP : Agree sP P P') (hs : sP.seats = true)
     (happ : AgreeApp app app') (hpre : AgreePre pre pre' preSeats) :
-    Agree allSig (byConstituencyImpl sP.prev preSeats P app pre) (byConstituencyLaw P' app' pre') := by
+    Agree allSig (byConstituencyImpl sP.prev sP.max preSeats P app pre) (byConstituencyLaw P' app' pre') := by
   intro a
-  simp only [byConstituencyImpl, byConstituencyLaw, allowedLaw, districtsLaw, assemble, district_eq hP hs hpm, apportion_eq happ]
+  simp only [byConstituencyImpl, byConstituencyLaw, allowedLaw, districtsLaw, assemble, districtResults,
+    district_eq hP hs, apportion_eq happ]
   cases hpre with
   | none b => simp [Args.restrict, allSig, Args.noExt] <;> rfl
   | @some sQ Q Q' hQ =>
@@ -293,14 +294,14 @@ theorem agree_removedApportionment {sP : Sig} {P P' : Sem}
   simp [removedApportionmentImpl, removedApportionmentLaw, hP.byHand, Args.restrict, allSig, Args.noExt]
 
 theorem agree_byParty {sO sA : Sig} {O O' A A' : Sem} (hO : Agree sO O O') (hA : Agree sA A A')
-    (hso : sO.seats = true) (hsa : sA.seats = true) (hp : sA.prev = true) (hm : sA.max = true) :
-    Agree allSig (byPartyImpl sA.prev O A) (byPartyLaw O' A') := by
+    (hsa : sA.seats = true) (hp : sA.prev = true) (hm : sA.max = true) :
+    Agree allSig (byPartyImpl sO.seats sA.prev O A) (byPartyLaw O' A') := by
   intro a
   cases sO with | mk oseats oprev omax oext =>
   cases sA with | mk seats prev max ext =>
-  simp at hso hsa hp hm; subst hso; subst hsa; subst hp; subst hm
+  simp at hsa hp hm; subst hsa; subst hp; subst hm
   simp only [byPartyImpl, byPartyLaw, hO.byHand, hA.byHand]
-  simp [Args.restrict, allSig, Args.noExt]
+  cases oseats <;> simp [Args.restrict, allSig, Args.noExt]
 
 /-! ### multi-stage -/
 
@@ -458,6 +459,56 @@ theorem foldlM_congr_mem {α β : Type} {f g : β → α → Except Err β} :
 
 /-! ### arbitrary nesting -/
 
+/-! ### the dispatch flags tell the truth (after e582ee8: for EVERY tree) -/
+
+theorem acceptsSeats_faithful : ∀ (e : Ev), acceptsSeats e = (takes e).seats
+  | .leaf _ _ => by simp [acceptsSeats, takes]
+  | .fixedSeatCount _ _ => by simp [acceptsSeats, takes]
+  | .tieBreaking m _ => by simp [acceptsSeats, takes, acceptsSeats_faithful m]
+  | .preConverted _ e => by simp [acceptsSeats, takes, acceptsSeats_faithful e]
+  | .postConverted e _ => by simp [acceptsSeats, takes, acceptsSeats_faithful e]
+  | .votingSystem e => by simp [acceptsSeats, takes, acceptsSeats_faithful e]
+  | .conditioned _ _ _ => by simp [acceptsSeats, takes]
+  | .byConstituency _ _ _ => by simp [acceptsSeats, takes, allSig]
+  | .preApportioned _ _ => by simp [acceptsSeats, takes, allSig]
+  | .removedApportionment _ => by simp [acceptsSeats, takes, allSig]
+  | .byParty _ _ => by simp [acceptsSeats, takes, allSig]
+  | .multistage _ _ => by simp [acceptsSeats, takes, allSig]
+  | .unusedVotes _ _ _ => by simp [acceptsSeats, takes, allSig]
+  | .partyList _ _ _ => by simp [acceptsSeats, takes]
+
+theorem acceptsPrevGains_faithful : ∀ (e : Ev), acceptsPrevGains e = (takes e).prev
+  | .leaf _ _ => by simp [acceptsPrevGains, takes]
+  | .fixedSeatCount e _ => by simp [acceptsPrevGains, takes, acceptsPrevGains_faithful e]
+  | .tieBreaking m _ => by simp [acceptsPrevGains, takes, acceptsPrevGains_faithful m]
+  | .preConverted _ e => by simp [acceptsPrevGains, takes, acceptsPrevGains_faithful e]
+  | .postConverted e _ => by simp [acceptsPrevGains, takes, acceptsPrevGains_faithful e]
+  | .votingSystem e => by simp [acceptsPrevGains, takes, acceptsPrevGains_faithful e]
+  | .partyList p _ _ => by simp [acceptsPrevGains, takes, acceptsPrevGains_faithful p]
+  | .conditioned _ _ _ => by simp [acceptsPrevGains, takes]
+  | .byConstituency _ _ _ => by simp [acceptsPrevGains, takes, allSig]
+  | .preApportioned _ _ => by simp [acceptsPrevGains, takes, allSig]
+  | .removedApportionment _ => by simp [acceptsPrevGains, takes, allSig]
+  | .byParty _ _ => by simp [acceptsPrevGains, takes, allSig]
+  | .multistage _ _ => by simp [acceptsPrevGains, takes, allSig]
+  | .unusedVotes _ _ _ => by simp [acceptsPrevGains, takes, allSig]
+
+theorem acceptsMaxSeats_faithful : ∀ (e : Ev), acceptsMaxSeats e = (takes e).max
+  | .leaf _ _ => by simp [acceptsMaxSeats, takes]
+  | .fixedSeatCount e _ => by simp [acceptsMaxSeats, takes, acceptsMaxSeats_faithful e]
+  | .tieBreaking m _ => by simp [acceptsMaxSeats, takes, acceptsMaxSeats_faithful m]
+  | .preConverted _ e => by simp [acceptsMaxSeats, takes, acceptsMaxSeats_faithful e]
+  | .postConverted e _ => by simp [acceptsMaxSeats, takes, acceptsMaxSeats_faithful e]
+  | .votingSystem e => by simp [acceptsMaxSeats, takes, acceptsMaxSeats_faithful e]
+  | .conditioned _ e _ => by simp [acceptsMaxSeats, takes, acceptsMaxSeats_faithful e]
+  | .partyList p _ _ => by simp [acceptsMaxSeats, takes, acceptsMaxSeats_faithful p]
+  | .byConstituency _ _ _ => by simp [acceptsMaxSeats, takes, allSig]
+  | .preApportioned _ _ => by simp [acceptsMaxSeats, takes, allSig]
+  | .removedApportionment _ => by simp [acceptsMaxSeats, takes, allSig]
+  | .byParty _ _ => by simp [acceptsMaxSeats, takes, allSig]
+  | .multistage _ _ => by simp [acceptsMaxSeats, takes, allSig]
+  | .unusedVotes _ _ _ => by simp [acceptsMaxSeats, takes, allSig]
+
 def appMap (f : Ev → Sem) : App Ev → App Sem
   | .none => .none
   | .int k => .int k
@@ -466,7 +517,8 @@ def appMap (f : Ev → Sem) : App Ev → App Sem
 
 theorem eval_byConstituency (e : Ev) (app : App Ev) (pre : Option Ev) :
     eval (.byConstituency e app pre) =
-      byConstituencyImpl (acceptsPrevGains e) (match pre with | some p => acceptsSeats p | Option.none => false)
+      byConstituencyImpl (acceptsPrevGains e) (acceptsMaxSeats e)
+        (match pre with | some p => acceptsSeats p | Option.none => false)
         (eval e) (appMap eval app) (pre.map eval) := by
   cases app <;> cases pre <;> simp [eval, appMap]
 
@@ -494,10 +546,9 @@ theorem agree_tree : ∀ (t : Ev), WellFormed t = true → Agree (takes t) (eval
       simp only [WellFormed, Bool.and_eq_true] at h
       simpa [eval, denote, takes] using agree_tieBreaking (agree_tree main h.1.1) (agree_tree tb h.1.2) h.2
   | .conditioned elim e depth, h => by
-      simp only [WellFormed, DispatchFaithful, Bool.and_eq_true, beq_iff_eq] at h
-      obtain ⟨⟨⟨hw1, hw2⟩, hf1⟩, hf2, hf3⟩ := h
-      simp only [eval, denote, takes, hf1, hf2, hf3]
-      exact agree_conditioned depth (agree_tree elim hw1) (agree_tree e hw2)
+      simp only [WellFormed, Bool.and_eq_true] at h
+      simp only [eval, denote, takes, acceptsPrevGains_faithful, acceptsSeats_faithful]
+      exact agree_conditioned depth (agree_tree elim h.1) (agree_tree e h.2)
   | .preConverted c e, h => by
       simp only [WellFormed] at h
       simpa [eval, denote, takes] using agree_preConverted c.run (agree_tree e h)
@@ -509,11 +560,11 @@ theorem agree_tree : ∀ (t : Ev), WellFormed t = true → Agree (takes t) (eval
       simpa [eval, denote, takes] using agree_tree e h
   | .byConstituency e app pre, h => by
       unfold WellFormed at h
-      simp only [Bool.and_eq_true, beq_iff_eq] at h
-      obtain ⟨⟨⟨⟨⟨hw, hs⟩, hf⟩, hpm⟩, happ⟩, hpre⟩ := h
-      rw [eval_byConstituency, denote_byConstituency, hf]
+      simp only [Bool.and_eq_true] at h
+      obtain ⟨⟨⟨hw, hs⟩, happ⟩, hpre⟩ := h
+      rw [eval_byConstituency, denote_byConstituency, acceptsPrevGains_faithful, acceptsMaxSeats_faithful]
       simp only [takes]
-      refine agree_byConstituency (agree_tree e hw) hs hpm ?_ ?_
+      refine agree_byConstituency (agree_tree e hw) hs ?_ ?_
       · cases app with
         | none => exact .none
         | int k => exact .int k
@@ -525,8 +576,8 @@ theorem agree_tree : ∀ (t : Ev), WellFormed t = true → Agree (takes t) (eval
         | none => exact .none _
         | some p =>
           simp at hpre
-          simp only [hpre.2, Option.map]
-          exact .some (agree_tree p hpre.1)
+          simp only [acceptsSeats_faithful, Option.map]
+          exact .some (agree_tree p hpre)
   | .preApportioned e app, h => by
       unfold WellFormed at h
       simp only [takesAll, Bool.and_eq_true] at h
@@ -548,15 +599,15 @@ theorem agree_tree : ∀ (t : Ev), WellFormed t = true → Agree (takes t) (eval
   | .byParty overall alloc, h => by
       cases alloc with
       | some al =>
-        simp only [WellFormed, takesAll, Bool.and_eq_true, beq_iff_eq] at h
-        obtain ⟨⟨hwo, hso⟩, ⟨hwa, ⟨hsa, hpa⟩, hma⟩, hfa⟩ := h
-        simp only [eval, denote, takes, hfa]
-        exact agree_byParty (agree_tree overall hwo) (agree_tree al hwa) hso hsa hpa hma
+        simp only [WellFormed, takesAll, Bool.and_eq_true] at h
+        obtain ⟨hwo, hwa, ⟨hsa, hpa⟩, hma⟩ := h
+        simp only [eval, denote, takes, acceptsPrevGains_faithful, acceptsSeats_faithful]
+        exact agree_byParty (agree_tree overall hwo) (agree_tree al hwa) hsa hpa hma
       | none =>
-        simp only [WellFormed, takesAll, Bool.and_eq_true, beq_iff_eq] at h
-        obtain ⟨⟨hwo, hso⟩, ⟨⟨_, hpo⟩, hmo⟩, hfo⟩ := h
-        simp only [eval, denote, takes, hfo]
-        exact agree_byParty (agree_tree overall hwo) (agree_tree overall hwo) hso hso hpo hmo
+        simp only [WellFormed, takesAll, Bool.and_eq_true] at h
+        obtain ⟨hwo, ⟨hso, hpo⟩, hmo⟩ := h
+        simp only [eval, denote, takes, acceptsPrevGains_faithful, acceptsSeats_faithful]
+        exact agree_byParty (agree_tree overall hwo) (agree_tree overall hwo) hso hpo hmo
   | .multistage rounds depth, h => by
       simp only [WellFormed] at h
       simpa [eval, denote, takes] using agree_multistage (agree_stages rounds true h) depth
